@@ -374,7 +374,7 @@ func (p *Parser) ShortExp(t *token.Token) (ast.ExpNode, *token.Token) {
 	case token.STRING:
 		s, err := ast.NewString(t)
 		if err != nil {
-			panic(err)
+			panic(stringError(t, err))
 		}
 		exp, t = s, p.Scan()
 	case token.LONGSTRING:
@@ -539,7 +539,7 @@ func (p *Parser) Args(t *token.Token) ([]ast.ExpNode, *token.Token) {
 	case token.STRING:
 		arg, err := ast.NewString(t)
 		if err != nil {
-			panic(err)
+			panic(stringError(t, err))
 		}
 		return []ast.ExpNode{arg}, p.Scan()
 	case token.LONGSTRING:
@@ -644,4 +644,11 @@ func expectType(t *token.Token, tp token.Type, expected string) {
 
 func tokenError(t *token.Token, expected string) {
 	panic(Error{Got: t, Expected: expected})
+}
+
+// stringError positions an error found while decoding a string literal.
+func stringError(t *token.Token, err error) Error {
+	bad := *t
+	bad.Type = token.INVALID
+	return Error{Got: &bad, Expected: err.Error()}
 }
